@@ -91,6 +91,8 @@ def tags(t):
 def run(ctx, prop, relevant):
     q = ctx.quick
     mc = tlc_mc(ctx, "NodePool_mc", "NodePool_mc.cfg" if q else "NodePool_mc_thorough.cfg", timeout=3000, coverage=not q)
+    # the dual-stack closure (one interface, both families)
+    mc6 = tlc_mc(ctx, "NodePool_mc", "NodePool_mc_dual.cfg" if q else "NodePool_mc_dual_thorough.cfg", timeout=3000)
     # the pool's design at critical-section grain: every interleaving of its goroutines for 2 (quick) / 3 (thorough) requests
     design = tlc_mc(ctx, "PoolDesign", "PoolDesign.cfg" if q else "PoolDesign_thorough.cfg", timeout=3000)
     design_neg = {}
@@ -133,7 +135,7 @@ def run(ctx, prop, relevant):
         for g in tags(t):
             tagc[g] = tagc.get(g, 0) + 1
     nt = len({h(strip(t)) for t in traces if tags(t) & relevant})
-    cov = dict(states=mc.distinct + design.distinct, transitions=mc.generated + design.generated, design_model_states=design.distinct,
+    cov = dict(states=mc.distinct + mc6.distinct + design.distinct, transitions=mc.generated + mc6.generated + design.generated, design_model_states=design.distinct,
                design_defect_reproduction=design_neg, traces_validated_against_impl=len(traces), evaluations=len(traces),
                distinct_nontrivial=nt, events=sum(len(t) for t in traces), critical_section_projections=ncs, trace_tags=tagc,
                rule="scenarios = TLC simulation of NodePool_mc.tla projected on the driver alphabet (alloc/release/cancel/balancer/"
